@@ -60,6 +60,7 @@ def run(chk):
                 if nodes[b][2] is None and (b, a) not in never and r.startswith("err"):
                     chk.monitor_fail("node %d has no connection limit and no Never entry for %d but the dial failed" % (b, a), dict(case=rec["scenario"][:2000], op_index=oi))
     background_dials(chk)
+    failed_handshakes(chk)
     chk.assumptions += ["arrivals do not overlap (the code documents the limit as approximate for simultaneous arrivals)",
                         "a peer that reconnects while still connected counts against the limit like any other connection (by design, not alarmed)"]
     if not quick:
@@ -112,6 +113,45 @@ def background_dials(chk):
             chk.monitor_fail("the High-affinity known peer %d was not dialed in the background while the node was at its connection limit (%d): %s" % (k, limit, res[-1]), dict(case=sc))
         if sorted(x for x in final if x) != sorted(x for x in mlist if x):
             chk.disagree(sc, "node 0 lists %s" % sorted(final), "NetModel.v: %s" % sorted(mlist), "simnet/netmodel-outbound")
+
+
+def failed_handshakes(chk):
+    """Arrivals that pass admission but never become established connections (a dialer that completes TLS and then
+    cannot be handshaken with) must not count: afterwards the node admits exactly as many unknown peers as its limit."""
+    quick = chk.tier == "quick"
+    scen, metas = [], []
+    for i in range(4 if quick else 40):
+        rng = chk.rng
+        limit = rng.choice([1, 2, 3])
+        fails = rng.randrange(1, limit + 2)
+        cmds = ["seed=%d delay=%d" % (rng.randrange(1 << 30), rng.choice([200, 2000])),
+                "node 0 key=10 name=n10 maxconn=%d ctimeout=500 idle=600000 keepalive=5000" % limit]
+        for j in range(1, limit + 2):
+            cmds.append("node %d key=%d name=n10 idle=600000 keepalive=5000" % (j, 10 + j))
+        for f in range(fails):
+            cmds += ["adv %d k=%d names=n10 nouni=1" % (20 + f, 70 + f), "advdial %d 0 sni=n10" % (20 + f), "sleep 800"]
+        cmds += ["peers 0"]
+        for j in range(1, limit + 2):
+            cmds += ["connect %d 0" % j, "sleep 300"]
+        cmds += ["peers 0"]
+        scen.append("simnet " + " ; ".join(cmds))
+        metas.append((limit, fails))
+    outs, parsed = simnet.run_scenarios(chk, scen, "fabric:failed-handshakes-then-admission")
+    for sc, res, (limit, fails) in zip(scen, parsed, metas):
+        if res is None:
+            continue
+        chk.nontriv(sc)
+        cl = [c.strip() for c in sc[len("simnet "):].split(" ; ")][1:]
+        dials = [x for c, x in zip(cl, res) if c.startswith("connect ") and c.endswith(" 0")]
+        adv = [x for c, x in zip(cl, res) if c.startswith("advdial")]
+        if any(x == "ok" for x in adv):
+            chk.count("adversary-handshake-unexpectedly-completed")
+            continue
+        got = [x.startswith("ok") for x in dials]
+        want = [True] * limit + [False]
+        if got != want:
+            chk.monitor_fail("after %d arrival(s) that were admitted but never established, a node with limit %d answered %d further unknown dialers with %s (expected %s)" %
+                             (fails, limit, limit + 1, ["ok" if g else "err" for g in got], ["ok" if g else "err" for g in want]), dict(case=sc))
 
 
 replay = __import__("c_c09").replay
